@@ -10,6 +10,7 @@ import (
 
 	"google.golang.org/protobuf/proto"
 
+	"github.com/shutter-network/rolling-shutter/rolling-shutter/keyper/shutterevents"
 	"github.com/shutter-network/rolling-shutter/rolling-shutter/shmsg"
 
 	"verif/sim/pgsim"
@@ -20,7 +21,7 @@ import (
 func init() {
 	simkit.Register(&simkit.Property{
 		ID: "C08", Level: "fault_enumeration", Bubble: true, Run: runC08,
-		Rule: "World B, n=3 t=2 (thorough also n=4; 40% of the runs n=4 with a fourth, Byzantine keyper following one of C07's scripted strategies), one victim keyper running the real main loop; which pending transactions a shuttermint block takes and in which order is a tape choice (20% deferral), so DKG messages of different keypers land in different blocks. Per run: a crash-free base execution of a complete DKG (check-in, config vote, dealing, accusing, apologizing, result, eon key) records the victim's R seam requests (database round trips and shuttermint RPCs); then crash points of that base run are executed as twins with the base's choice sequence and the same crypto/rand stream: db.crash_before(k) for sampled (quick) / all (thorough) k<=R, db.crash_after_commit(k) for COMMITs (applied, reply lost), rpc.tm_ambiguous+crash for broadcasts (transaction accepted, client dies before the reply); the quick tier spends 5 points right after the commit of a block that carried DKG messages; sampled crash pairs (the restarted process dies again at its k2-th request); the process is restarted after 0-2 s with only committed database state. Oracles: (exactly-once) at every commit of the victim the newest tendermint_sync_meta.current_block grows by exactly 1 or not at all; (single commitment) shuttermint never receives two different polynomial commitments of the victim for one eon; (consistency) the victim's secret share matches the public share the others derive and t honest shares decrypt (C07's oracle over all keypers); (outbox) shuttermint receives the victim's committed outbox rows in id order, each at least once unless superseded, and the outbox is empty after the drain period; (outcome) success/failure per keyper equals the crash-free twin's whenever in both executions every DKG message landed inside its phase. Non-trivial = a crash point inside an open transaction; distinct = distinct (base trace, crash point) pairs.",
+		Rule: "World B, n=3 t=2 (thorough also n=4; 40% of the runs n=4 with a fourth, Byzantine keyper following one of C07's scripted strategies), one victim keyper running the real main loop; which pending transactions a shuttermint block takes and in which order is a tape choice (20% deferral), so DKG messages of different keypers land in different blocks. Per run: a crash-free base execution of a complete DKG (check-in, config vote, dealing, accusing, apologizing, result, eon key; if the key generation fails by vote, also of the retried eon) records the victim's R seam requests (database round trips and shuttermint RPCs); then crash points of that base run are executed as twins with the base's choice sequence and the same crypto/rand stream: db.crash_before(k) for sampled (quick) / all (thorough) k<=R, db.crash_after_commit(k) for COMMITs (applied, reply lost), rpc.tm_ambiguous+crash for broadcasts (transaction accepted, client dies before the reply); the quick tier spends 5 points right after the commit of a block that carried DKG messages; sampled crash pairs (the restarted process dies again at its k2-th request); the process is restarted after 0-2 s with only committed database state. Oracles: (exactly-once) at every commit of the victim the newest tendermint_sync_meta.current_block grows by exactly 1 or not at all; (single commitment) shuttermint never receives two different polynomial commitments of the victim for one eon; (consistency) the victim's secret share matches the public share the others derive and t honest shares decrypt (C07's oracle over all keypers); (outbox) shuttermint receives the victim's committed outbox rows in id order, each at least once unless superseded, and the outbox is empty after the drain period; (outcome) success/failure per keyper equals the crash-free twin's whenever in both executions every DKG message landed inside its phase. Non-trivial = a crash point inside an open transaction; distinct = distinct (base trace, crash point) pairs.",
 		Assumptions: []string{"restart delay <= 2 s and phase length >= 8 blocks, so that a crash does not by itself push the victim's messages out of their phases", "operateShuttermint returning an error ends the process (supervisor restarts it)"},
 		Real:        []string{"keyper.KeyperCore.operateShuttermint, smobserver, fx.SendShutterMessages, ShuttermintState.Load/Invalidate", "app.ShutterApp", "keyper/database sqlc, pgx"},
 		Stub:        []string{"Tendermint (simtm)", "execution node (simeth)", "PostgreSQL (pgsim: only committed state survives KillAll)", "libp2p (simnet)"},
@@ -40,6 +41,7 @@ type c08Outcome struct {
 	kinds     []string // per victim request: "db", "db-commit", "db-intx", "tm-broadcast", "tm", "eth"
 	success   map[string]bool
 	inPhase   bool
+	inPhaseBy map[int64]bool
 	completed bool
 	crashed   bool
 	inTx      bool
@@ -49,7 +51,7 @@ type c08Outcome struct {
 	dkgCommits []int
 }
 
-func c08Execute(r *simkit.Run, n, t, nbyz int, L int64, tape []int, crash c08Crash, sub uint64) *c08Outcome {
+func c08Execute(r *simkit.Run, n, t, nbyz int, sabotage bool, L int64, tape []int, crash c08Crash, sub uint64) *c08Outcome {
 	// replay the base choice sequence
 	saved := r.C
 	if tape != nil {
@@ -57,7 +59,7 @@ func c08Execute(r *simkit.Run, n, t, nbyz int, L int64, tape []int, crash c08Cra
 	}
 	defer func() { r.C = saved }()
 	r.Reseed(sub)
-	out := &c08Outcome{success: map[string]bool{}}
+	out := &c08Outcome{success: map[string]bool{}, inPhaseBy: map[int64]bool{}}
 	w := newWorldB(r, n, t, L)
 	defer w.close()
 	var nodes []*bNode
@@ -69,6 +71,16 @@ func c08Execute(r *simkit.Run, n, t, nbyz int, L int64, tape []int, crash c08Cra
 	var byz []*byzKeyper
 	for i := n - nbyz; i < n; i++ {
 		b := newByzKeyper(w, i, r.C, honestIdx)
+		if sabotage {
+			// first eon made to fail by vote: the Byzantine keyper falsely accuses an honest one
+			// and the block proposer withholds that keyper's apology (below), so with t = n-1 too
+			// few dealers remain; shuttermint then retries the key generation as eon 2
+			b.strat.commitment = "correct"
+			b.strat.accuse[1] = true
+			b.strat.late["accusation"], b.strat.late["commitment"], b.strat.late["eval"] = false, false, false
+			// ... and is itself exposed by a wrong evaluation it never apologises for
+			b.strat.eval[0], b.strat.apology[0] = "wrong", "none"
+		}
 		byz = append(byz, b)
 		r.Eventf("%s", b.describe())
 	}
@@ -87,6 +99,7 @@ func c08Execute(r *simkit.Run, n, t, nbyz int, L int64, tape []int, crash c08Cra
 		step int // harness step in which the row became durable
 	}
 	stepNo := 0
+	eon1Start := int64(0)
 	const drainSteps = 6
 	var outbox []outRow
 	seenOut := map[int64]bool{}
@@ -188,7 +201,30 @@ func c08Execute(r *simkit.Run, n, t, nbyz int, L int64, tape []int, crash c08Cra
 		// messages of different keypers land in different blocks
 		pick := []int{}
 		if m := w.tm.MempoolSize(); m > 0 {
+			pool := w.tm.Mempool()
+			// the proposer withholds the apologies of eon 1 until its apologizing phase is over
+			if sabotage && eon1Start == 0 {
+				for _, blk := range w.tmc.Blocks {
+					for _, d := range blk.Deliver {
+						for _, raw := range d.Events {
+							if ev, err := shutterevents.MakeEvent(raw, blk.Height); err == nil {
+								if e, ok := ev.(*shutterevents.EonStarted); ok && e.Eon == 1 {
+									eon1Start = e.Height
+								}
+							}
+						}
+					}
+				}
+			}
+			withhold := sabotage && (eon1Start == 0 || w.tmc.Height+1 < eon1Start+3*L)
 			for _, i := range r.C.Perm(m, "block-order") {
+				if withhold && i < len(pool) {
+					if raw, err := base64.RawURLEncoding.DecodeString(string(pool[i])); err == nil {
+						if mw, err := shmsg.GetMessage(raw); err == nil && mw.Msg.GetApology() != nil && mw.Msg.GetApology().Eon == 1 {
+							continue // withheld by the proposer
+						}
+					}
+				}
 				if !r.C.Chance(200, "tx-delayed") {
 					pick = append(pick, i)
 				}
@@ -224,18 +260,50 @@ func c08Execute(r *simkit.Run, n, t, nbyz int, L int64, tape []int, crash c08Cra
 	}
 	w.advanceEth(2)
 	eon := int64(1)
-	for blk := 0; blk < int(6*L)+60 && !out.completed; blk++ {
-		step()
-		if blk%3 == 0 {
-			w.advanceEth(1)
-		}
-		out.completed = true
-		for _, nd := range nodes {
-			if found, _, _ := nd.dkgResult(eon); !found {
-				out.completed = false
+	awaitResults := func(eon int64) bool {
+		done := false
+		for blk := 0; blk < int(6*L)+60 && !done; blk++ {
+			step()
+			if blk%3 == 0 {
+				w.advanceEth(1)
 			}
-			if !nd.running && nd != victim {
-				r.Fail("keyper-loop-stopped", "main-loop", "%s: main loop of %s stopped: %v", where, nd.name, nd.loopErr)
+			done = true
+			for _, nd := range nodes {
+				if found, _, _ := nd.dkgResult(eon); !found {
+					done = false
+				}
+				if !nd.running && nd != victim {
+					r.Fail("keyper-loop-stopped", "main-loop", "%s: main loop of %s stopped: %v", where, nd.name, nd.loopErr)
+				}
+			}
+		}
+		return done
+	}
+	out.completed = awaitResults(eon)
+	// a key generation that failed by vote is retried by shuttermint as the next eon: follow the
+	// retry as well (restarts during a retried eon reload its state from the database)
+	eons := []int64{eon}
+	if out.completed {
+		// failure reports travel through the outbox: give them time to reach the chain
+		failed := 0
+		for _, nd := range nodes {
+			if _, ok, _ := nd.dkgResult(1); !ok {
+				failed++
+			}
+		}
+		for i := 0; failed >= t && i < 20; i++ {
+			if _, retried := w.tmc.Replicas[0].App.DKGMap[2]; retried {
+				break
+			}
+			step()
+		}
+		if _, retried := w.tmc.Replicas[0].App.DKGMap[2]; retried {
+			r.Probe("retried-eon-followed")
+			if awaitResults(2) {
+				eons = append(eons, 2)
+			} else {
+				out.completed = false
+				eon = 2
 			}
 		}
 	}
@@ -256,8 +324,11 @@ func c08Execute(r *simkit.Run, n, t, nbyz int, L int64, tape []int, crash c08Cra
 		r.Fail("dkg-did-not-finish", "liveness", "%s: no DKG result at all keypers after %d shuttermint blocks", where, w.tmc.Height)
 	}
 	for _, nd := range nodes {
-		_, ok, _ := nd.dkgResult(eon)
-		out.success[nd.name] = ok
+		ok := false
+		for _, e := range eons {
+			_, ok, _ = nd.dkgResult(e)
+			out.success[fmt.Sprintf("%s/eon%d", nd.name, e)] = ok
+		}
 		if !ok {
 			cols, rows := nd.db.Dump("dkg_result")
 			for _, rw := range rows {
@@ -269,7 +340,14 @@ func c08Execute(r *simkit.Run, n, t, nbyz int, L int64, tape []int, crash c08Cra
 			}
 		}
 	}
-	out.inPhase, _, _ = dkgMessagesInPhase(w, eon, nodes)
+	out.inPhase = true
+	for _, e := range eons {
+		ok, _, _ := dkgMessagesInPhase(w, e, nodes)
+		out.inPhaseBy[e] = ok
+		if !ok {
+			out.inPhase = false
+		}
+	}
 	for _, b := range w.tmc.Blocks {
 		dkgBlock := false
 		for _, tx := range b.Txs {
@@ -290,14 +368,16 @@ func c08Execute(r *simkit.Run, n, t, nbyz int, L int64, tape []int, crash c08Cra
 		}
 	}
 	// (consistency) C07's oracle over all keypers
-	checkDKGAgreement(r, w, eon, nodes)
+	for _, e := range eons {
+		checkDKGAgreement(r, w, e, nodes)
+	}
 	// (exactly-once, end to end) the observers' mirror of shuttermint equals the application
 	if !out.crashed {
 		w.quietTail()
 		checkObserverMirror(r, w, where+": ", nodes)
 	}
 	// (single commitment) + (outbox order) from what shuttermint received
-	var commitments [][]byte
+	commitments := map[uint64][][]byte{}
 	lastIdx := -1
 	delivered := map[int64]bool{}
 	sort.Slice(outbox, func(i, j int) bool { return outbox[i].id < outbox[j].id })
@@ -314,9 +394,9 @@ func c08Execute(r *simkit.Run, n, t, nbyz int, L int64, tape []int, crash c08Cra
 		if err != nil {
 			continue
 		}
-		if pc := mw.Msg.GetPolyCommitment(); pc != nil && int64(pc.Eon) == eon {
+		if pc := mw.Msg.GetPolyCommitment(); pc != nil {
 			b, _ := proto.Marshal(pc)
-			commitments = append(commitments, b)
+			commitments[pc.Eon] = append(commitments[pc.Eon], b)
 		}
 		payload, _ := proto.Marshal(mw.Msg)
 		// identical payloads can be queued more than once (e.g. the check-in for two configs):
@@ -348,9 +428,11 @@ func c08Execute(r *simkit.Run, n, t, nbyz int, L int64, tape []int, crash c08Cra
 			}
 		}
 	}
-	for i := 1; i < len(commitments); i++ {
-		if !bytes.Equal(commitments[i], commitments[0]) {
-			r.Fail("two-different-commitments", "commitment", "%s: shuttermint received two different polynomial commitments of the victim for eon %d", where, eon)
+	for _, e := range []uint64{1, 2, 3} {
+		for i := 1; i < len(commitments[e]); i++ {
+			if !bytes.Equal(commitments[e][i], commitments[e][0]) {
+				r.Fail("two-different-commitments", "commitment", "%s: shuttermint received two different polynomial commitments of the victim for eon %d", where, e)
+			}
 		}
 	}
 	if r.KeepLog {
@@ -398,17 +480,24 @@ func runC08(r *simkit.Run) {
 	case r.Tier == "thorough" && c.Chance(300, "n4"):
 		n, t = 4, c.Range(2, 3, "t")
 	}
+	sabotage := nbyz > 0 && t == n-1 && c.Chance(600, "first-eon-fails-by-vote")
 	L := int64(c.Range(8, 10, "phase-length"))
 	// base run: its own choice stream, recorded
 	baseChooser := simkit.NewChooser(r.Seed, 0xC08)
 	saved := r.C
 	r.C = baseChooser
-	base := c08Execute(r, n, t, nbyz, L, nil, c08Crash{}, 0)
+	base := c08Execute(r, n, t, nbyz, sabotage, L, nil, c08Crash{}, 0)
 	r.C = saved
 	tape := append([]int(nil), baseChooser.Tape...)
 	r.Eventf("base run: victim made %d seam requests, success=%v inPhase=%t", base.requests, base.success, base.inPhase)
 	if nbyz > 0 {
 		r.Probe("runs-with-byzantine")
+	}
+	if sabotage {
+		r.Probe("runs-with-first-eon-sabotaged")
+	}
+	if sabotage {
+		r.Probe("runs-with-first-eon-sabotaged")
 	}
 	r.Sample["base"] = fmt.Sprintf("n=%d t=%d byzantine=%d L=%d victim requests=%d success=%v in-phase=%t", n, t, nbyz, L, base.requests, base.success, base.inPhase)
 	if base.requests < 50 {
@@ -468,7 +557,7 @@ func runC08(r *simkit.Run) {
 	}
 	for pi, p := range points {
 		p.delay = time.Duration(c.Intn(3, "restart-delay")) * time.Second
-		sub := c08Execute(r, n, t, nbyz, L, tape, p, 0)
+		sub := c08Execute(r, n, t, nbyz, sabotage, L, tape, p, 0)
 		r.Steps++
 		if sub.inTx || p.mode != "before" {
 			r.Nontrivial = true
@@ -479,8 +568,14 @@ func runC08(r *simkit.Run) {
 			r.Probe("crash-pairs")
 		}
 		r.Eventf("point %d: %+v -> success=%v inPhase=%t", pi, p, sub.success, sub.inPhase)
-		if base.inPhase && sub.inPhase {
+		for _, e := range []int64{1, 2} {
+			if !base.inPhaseBy[e] || !sub.inPhaseBy[e] {
+				continue
+			}
 			for name, ok := range base.success {
+				if !strings.HasSuffix(name, fmt.Sprintf("/eon%d", e)) {
+					continue
+				}
 				if sub.success[name] != ok {
 					r.Fail("outcome-differs-from-crash-free-twin", "outcome", "crash %s at victim request %d (%s): %s reports success=%t, in the crash-free twin %t (all DKG messages were in phase in both); DKG errors: %v", p.mode, p.at, base.kinds[p.at-1], name, sub.success[name], ok, sub.errors)
 				}
